@@ -30,7 +30,11 @@ func (w *world) step(a alpha, id string) string {
 		key     string
 	}
 	var opts []opt
-	for _, k := range w.keys {
+	skeys := w.stepKeys
+	if skeys == nil {
+		skeys = w.keys
+	}
+	for _, k := range skeys {
 		opts = append(opts, opt{0, 0, k}, opt{1, 0, k}) // autocommit set / delete
 		for _, t := range open {
 			opts = append(opts, opt{0, t, k}, opt{1, t, k})
